@@ -572,6 +572,123 @@ def _b(x):
     return "true" if x else "false"
 
 
+# ------------------------------------------------------------------------------------------------ EdgeLock v2
+CERT = "spsdk/image/ahab/ahab_certificate.py"
+
+
+def _strs(xs):
+    return "[" + ", ".join('"%s"' % str(x).replace("\\", "\\\\").replace('"', "'") for x in xs) + "]"
+
+
+def v2_section(tree, out, meta):
+    """What the model of the v2 credential depends on (the byte widths come from C06's Generated/AhabConsts.certificateLayout)."""
+    try:
+        ctree = parse(CERT)
+    except (OSError, SyntaxError) as exc:
+        ctree = None
+        meta.setdefault("errors", []).append(f"{CERT}: {exc}")
+    cert = _cls(ctree, "AhabCertificate") if ctree else None
+    # arguments of the pack(...) call of get_signature_data()
+    args = []
+    fn = _fun(cert, "get_signature_data")
+    if fn is not None:
+        for n in ast.walk(fn):
+            if isinstance(n, ast.Call) and isinstance(n.func, ast.Name) and n.func.id == "pack":
+                args = [ast.unparse(a) for a in n.args[1:]]
+                break
+    out.append(f"def certPackArgs : List String := {_strs(args)}  -- AhabCertificate.get_signature_data: pack(self.format(), ...)")
+    # what follows the packed head in get_signature_data() and export()
+    def tail_parts(fname):
+        f = _fun(cert, fname)
+        parts = []
+        if f is None:
+            return parts
+        for st in f.body:
+            if isinstance(st, ast.AugAssign) and isinstance(st.op, ast.Add):
+                parts.append(ast.unparse(st.value))
+            elif isinstance(st, ast.If):
+                for st2 in st.body:
+                    if isinstance(st2, ast.AugAssign) and isinstance(st2.op, ast.Add):
+                        parts.append("if " + ast.unparse(st.test) + ": " + ast.unparse(st2.value))
+        return parts
+    out.append(f"def certSignedTail : List String := {_strs(tail_parts('get_signature_data'))}")
+    out.append(f"def certExportTail : List String := {_strs(tail_parts('export'))}")
+    # parse(): unpack targets resolved to the constructor keyword / `cert.attr = local` they feed
+    fn = _fun(cert, "parse")
+    targets = []
+    if fn is not None:
+        local_to = {}
+        for n in ast.walk(fn):
+            if isinstance(n, ast.Call) and isinstance(n.func, ast.Name) and n.func.id == "cls":
+                for kw in n.keywords:
+                    if isinstance(kw.value, ast.Name):
+                        local_to.setdefault(kw.value.id, kw.arg)
+            if isinstance(n, ast.Assign) and len(n.targets) == 1 and isinstance(n.targets[0], ast.Attribute) and isinstance(n.value, ast.Name) \
+                    and isinstance(n.targets[0].value, ast.Name) and n.targets[0].value.id == "cert":
+                local_to.setdefault(n.value.id, n.targets[0].attr)
+        for n in ast.walk(fn):
+            if isinstance(n, ast.Assign) and isinstance(n.value, ast.Call) and isinstance(n.value.func, ast.Name) and n.value.func.id == "unpack" \
+                    and isinstance(n.targets[0], ast.Tuple):
+                names = [e.id if isinstance(e, ast.Name) else "?" for e in n.targets[0].elts]
+                for nm in names:
+                    targets.append("_" if nm == "_" else local_to.get(nm, "local"))
+                break
+        else:
+            names = []
+        # the one check on a local that feeds nothing: `if <local> != ~<permissions local> & 0xFF`, locals renamed to their role
+        role = {nm: ("«" + local_to[nm] + "»" if nm in local_to else "«local»") for nm in names if nm not in ("_", "?")}
+        inv = []
+        for n in ast.walk(fn):
+            if isinstance(n, ast.If) and isinstance(n.test, ast.Compare) and any(isinstance(x, ast.Name) and role.get(x.id) == "«local»" for x in ast.walk(n.test)):
+                t = copy.deepcopy(n.test)
+                for x in ast.walk(t):
+                    if isinstance(x, ast.Name) and x.id in role:
+                        x.id = role[x.id]
+                inv.append(ast.unparse(t))
+    else:
+        inv = []
+    out.append(f"def certParseTargets : List String := {_strs(targets)}  -- AhabCertificate.parse: targets of unpack(image_format, ...) by the attribute they feed")
+    out.append(f"def certInvertedCheck : List String := {_strs(inv)}")
+    consts = {k: _class_const(cert, k) for k in ("PERMISSION_DATA_SIZE", "UUID_SIZE")}
+    out.append(f"def certPermDataSize : Nat := {consts['PERMISSION_DATA_SIZE'] if isinstance(consts['PERMISSION_DATA_SIZE'], int) else 0}")
+    out.append(f"def certUuidSize : Nat := {consts['UUID_SIZE'] if isinstance(consts['UUID_SIZE'], int) else 0}")
+    perm_oem = _class_const(cert, "PERM_OEM")
+    out.append(f"def certPermDebug : Nat := {perm_oem.get('debug', 0) if isinstance(perm_oem, dict) else 0}  -- PERM_OEM['debug']")
+    # DebugCredentialEdgeLockEnclaveV2
+    v2 = _cls(tree, "DebugCredentialEdgeLockEnclaveV2")
+    init = _fun(v2, "__init__")
+    socc_expr = "?"
+    if init is not None:
+        canon = Canon(init, {})
+        for n in ast.walk(init):
+            if isinstance(n, ast.Call) and ast.unparse(n.func) == "super().__init__":
+                for kw in n.keywords:
+                    if kw.arg == "socc":
+                        socc_expr = canon.text(kw.value)
+    out.append(f"def v2CtorSoccExpr : String := {_strs([socc_expr])[1:-1]}  -- DebugCredentialEdgeLockEnclaveV2.__init__: socc= argument of the base initializer")
+    # permission data: pack("<LLL", socc, socu, 0) in create_from_yaml_config; positions read / written by the three properties
+    cr = _fun(v2, "create_from_yaml_config")
+    create = []
+    if cr is not None:
+        for n in ast.walk(cr):
+            if isinstance(n, ast.Call) and isinstance(n.func, ast.Name) and n.func.id == "pack" and _lit(n.args[0]) == "<LLL":
+                create = [ast.unparse(a) for a in n.args[1:]]
+    out.append(f"def v2CreatePermData : List String := {_strs(create)}  -- create_from_yaml_config: pack('<LLL', ...)")
+    props = []
+    for st in (v2.body if v2 else []):
+        if isinstance(st, ast.FunctionDef) and st.name in ("socc", "socu", "beacon"):
+            setter = any(isinstance(d, ast.Attribute) and d.attr == "setter" for d in st.decorator_list)
+            for n in ast.walk(st):
+                if not setter and isinstance(n, ast.Assign) and isinstance(n.targets[0], ast.Tuple) and isinstance(n.value, ast.Call) \
+                        and ast.unparse(n.value.func) == "unpack":
+                    pos = [i for i, e in enumerate(n.targets[0].elts) if isinstance(e, ast.Name) and e.id != "_"]
+                    props.append(f"{st.name}:get:{_lit(n.value.args[0])}:{pos}")
+                if setter and isinstance(n, ast.Call) and isinstance(n.func, ast.Name) and n.func.id == "pack":
+                    props.append(f"{st.name}:set:{_lit(n.args[0])}:" + ",".join(ast.unparse(a) for a in n.args[1:]))
+    out.append(f"def v2PermProps : List String := {_strs(props)}")
+    out.append("")
+
+
 # ------------------------------------------------------------------------------------------------ main
 def gen_DatConsts():
     del UNKNOWN_W[:]
@@ -816,6 +933,9 @@ def gen_DatConsts():
     out.append(f"def darLeafOverrides : Bool := {_b(any(x for *_, x in vm))}  -- a leaf response class defines methods of its own")
     meta["dar_version_mapping"] = {f"{a}.{b}": c for a, b, _, c, _ in vm}
     out.append("")
+
+    # ---- EdgeLock enclave v2 credential = AHAB certificate (spsdk/image/ahab/ahab_certificate.py) wrapped by DebugCredentialEdgeLockEnclaveV2
+    v2_section(tree, out, meta)
 
     # ---- database
     rows = db_rows(meta)
